@@ -4921,7 +4921,7 @@ class DecRoAffine(RoAffine):
                     rvecs.loc[i, index] = arg.values.loc[i].ravel()
 
         raffine_values = self.raffine()
-        affine_values = self.affine()
+        affine_values = self.affine(*args)
 
         if isinstance(raffine_values, pd.Series) or sw:
             output = []
